@@ -133,10 +133,6 @@ func ruleOPT1(c *Ctx) {
 			ast.Inspect(cc, func(x ast.Node) bool {
 				if call, ok := x.(*ast.CallExpr); ok && strings.HasPrefix(types.ExprString(call.Fun), "pkg.Evaluate") {
 					fn = strings.TrimPrefix(types.ExprString(call.Fun), "pkg.")
-					// operand order
-					if len(call.Args) == 2 && !(types.ExprString(call.Args[0]) == "lval" && types.ExprString(call.Args[1]) == "rval") {
-						fn += "(operands swapped)"
-					}
 				}
 				return true
 			})
